@@ -609,12 +609,12 @@ var commonMuts = []string{
 }
 var esMuts = []string{
 	"p-member:A", "alg-next:R", "crv-next:R", "crv-missing:R", "crv-num:R", "alg-crv-next:R", "crv-lower:R", "alg-RS256:R",
-	"x-plus:R", "x-slash:R", "x-pad:R", "x-space:R", "x-dot:R", "x-nonascii:R", "x-mod1:R", "x-long:R", "x-short:R", "x-empty:R", "x-shift:A", "y-shift:A",
+	"x-plus:R", "x-slash:R", "x-pad:R", "x-space:R", "x-newline:R", "x-cr:R", "x-dot:R", "x-nonascii:R", "x-mod1:R", "x-long:R", "x-short:R", "x-empty:R", "x-shift:A", "y-shift:A",
 	"x-noncanon:A", "y-noncanon:A", "x-missing:R", "y-missing:R", "x-num:R", "y-null:R", "y-flip:R", "x-flip:R", "x-ge-p:R", "xy-zero:R", "xy-swap:R", "y-neg:A",
 }
 var rsaMuts = []string{
 	"p:R", "q:R", "dp:R", "dq:R", "qi:R", "p-null:R", "x-member:A", "alg-swap:A", "alg-ES256:R",
-	"n-1024:R", "n-2047:R", "n-2048-min:A", "n-leading-zero:A", "n-leading-zeros-small:R", "n-empty:R", "n-missing:R", "n-badb64:R", "n-num:R", "n-4096:A", "n-noncanon:A", "n-pad:R",
+	"n-1024:R", "n-2047:R", "n-2048-min:A", "n-leading-zero:A", "n-leading-zeros-small:R", "n-empty:R", "n-missing:R", "n-badb64:R", "n-newline:R", "n-num:R", "n-4096:A", "n-noncanon:A", "n-pad:R",
 	"e-3:R", "e-65536:R", "e-65538:R", "e-65539:A", "e-leading-zero:A", "e-max:A", "e-max-plus-2:R", "e-2p63:R", "e-2p64:R", "e-empty:R", "e-zero:R", "e-missing:R", "e-badb64:R", "e-num:R", "e-1:R",
 }
 
@@ -768,6 +768,13 @@ func mutate(m map[string]any, d kd, name string) {
 		rep(name[:1], func(s string) string { return s + "=" })
 	case "x-space":
 		rep("x", func(s string) string { return s[:3] + " " + s[3:] })
+	case "x-newline":
+		// encoding/base64 silently skips \n and \r: only the explicit alphabet check rejects them
+		rep("x", func(s string) string { return s[:3] + "\n" + s[3:] })
+	case "x-cr":
+		rep("x", func(s string) string { return s + "\r" })
+	case "n-newline":
+		rep("n", func(s string) string { return s[:7] + "\n" + s[7:] })
 	case "x-dot":
 		rep("x", func(s string) string { return s[:len(s)-1] + "." })
 	case "x-nonascii":
